@@ -334,6 +334,8 @@ for node_name in it: node_names
         ae_traversal(*old(self), *edge, *final(self), r),
         // [C02.history.add_edge_index_sets_effect]
         ae_index(*old(self), *edge, *final(self), r),
+        // [C02.history.add_edge_name_keyed_effect, C01.add_edge.name_keyed_store_effect]
+        ae_names(*old(self), *edge, *final(self), r),
 //@ after let edge_already_exists = self.get_edge_by_indexes(u_node_index, v_node_index).is_ok();
         let ghost g1 = *self;
         proof {
